@@ -191,6 +191,40 @@ fn main() {
                 "C15" => {
                     drop(emit_serve);
                     histories::gen_c15(&mut rng, thorough, &mut cases, &mut meta, &prop);
+                    // streaming_body: the same headers for HEAD as for GET, but no writer and an empty body
+                    gen_stream::gen_c15_twins(&mut |g: stream_engine::StreamCase, h: stream_engine::StreamCase| {
+                        let (ig, ih) = match (watch::gate(&g.class), watch::gate(&h.class)) {
+                            (Some(a), Some(b)) => (a, b),
+                            _ => return,
+                        };
+                        let og = stream_engine::run(&g);
+                        let oh = stream_engine::run(&h);
+                        let mut checks = vec![];
+                        match (og.obs.as_list(), oh.obs.as_list()) {
+                            (Some(lg), Some(lh)) if lg.len() == 5 && lh.len() == 5 => {
+                                if lg[0] != lh[0] {
+                                    checks.push("C15:streaming-head-headers-differ".to_string());
+                                }
+                                if lh[1].as_n() != Some(0) {
+                                    checks.push("C15:streaming-head-has-a-writer".to_string());
+                                }
+                                if lg[1].as_n() != Some(1) {
+                                    checks.push("C15:streaming-get-has-no-writer".to_string());
+                                }
+                                let delivered = lh[4].as_list().map(|rs| rs.iter().any(|r| matches!(r.as_list().and_then(|x| x.first()), Some(val::Val::B(b)) if !b.is_empty()))).unwrap_or(false);
+                                if delivered {
+                                    checks.push("C15:streaming-head-body-not-empty".to_string());
+                                }
+                            }
+                            _ => checks.push("C15:panic".to_string()),
+                        }
+                        let idg = format!("{}-S{}", prop, ig);
+                        writeln!(cases, "stream {} {}", idg, val::Val::L(vec![og.input, og.obs]).to_string()).unwrap();
+                        writeln!(meta, "{}\t{}\t", idg, g.class).unwrap();
+                        let idh = format!("{}-S{}", prop, ih);
+                        writeln!(cases, "stream {} {}", idh, val::Val::L(vec![oh.input, oh.obs]).to_string()).unwrap();
+                        writeln!(meta, "{}\t{}\t{}", idh, h.class, checks.join(",")).unwrap();
+                    });
                 }
                 #[cfg(not(feature = "hooks"))]
                 "C10" => {
@@ -203,7 +237,7 @@ fn main() {
                     let mut k = 0u64;
                     let mut total = 0usize;
                     let mut exhausted_all = true;
-                    sched_gen::gen_c10(&mut rng, thorough, &mut |c: sched_engine::SchedCase| {
+                    sched_gen::gen_c10_all(&mut rng, thorough, &mut |c: sched_engine::SchedCase| {
                         let idx = match watch::gate(&c.class) {
                             Some(i) => i,
                             None => return,
